@@ -1024,7 +1024,7 @@ func c01GenCase(r *rand.Rand) (c *c01Case) {
 		if i := strings.IndexByte(host, '.'); i > 0 && r.IntN(3) == 0 {
 			parent = host[i+1:]
 		}
-		if r.IntN(10) < 7 {
+		if r.IntN(10) < 8 {
 			direct := vutil.Pick(r, []string{"||" + parent + "^", "||" + parent + "^", "||" + parent + "^$important", vutil.Pick(r, c01RuleIPs) + " " + host,
 				host, "|" + host + "^", "||" + parent + "^$dnstype=" + dns.TypeToString[c.qtype]})
 			if len(c.block) > 0 && r.IntN(2) == 0 {
